@@ -59,7 +59,7 @@ Deviate == /\ devs < MaxDev
                 /\ (fc = "cover" => v \in CoverFor(obj.kind))
                 \* "a family the certificate has no resources for" needs a family the certificate does not hold
                 /\ (fc = "cover" /\ v = "nores" => obj.fam \in {"v4", "v6"})
-                /\ (fc = "crl" => obj.kind \in {"roa", "aspa"})          \* only process() takes a CRL callback
+                /\ (fc = "crl" => obj.kind \in {"roa", "aspa", "gen"})   \* the process() entry points take a CRL callback
                 /\ obj' = [obj EXCEPT !.f[fc] = v]
            /\ devs' = devs + 1
 Next == Deviate
